@@ -333,6 +333,9 @@ func c05R3(p *core.Prog, r *core.Report) {
 		}
 		return false
 	})
+	if len(off) == 0 {
+		ok = false // the position reached by the rewind is not compared with 0
+	}
 	for _, e := range off {
 		if (core.Reach{}).FromEdge(e[0], e[1])[chunked] {
 			ok = false
